@@ -34,6 +34,7 @@ Inductive merr :=
   | PreSegmentUnaligned                (* "segment ops must have a w-aligned address" *)
   | PreReserveEval                     (* "reserve failed" *)
   | PreReserveUnaligned                (* "reserve ops must have a w-aligned value" *)
+  | PreReserveNegative                 (* "reserve must get a non-negative size" *)
   (* FlipJumpExprException that escapes resolve_macros as it is *)
   | ExprBadLabelSwap                   (* Label.eval_name: the label's name is bound to a non-name *)
   | ExprEvalNew (k : liberr)           (* Expr.eval_new inside some op.eval_new(params_dict) / rename_iterator *)
@@ -162,13 +163,15 @@ Definition insert_label (c : core) (name : string) (address : Z) : res core :=
   if dict_mem (c_labels c) name then RErr (PreDupLabel name)
   else ROk (mkcore (c_addr c) (c_rops c) (dict_set (c_labels c) name address) (address :: c_lbladdrs c) (c_segidx c)).
 
-(* insert_segment *)
-Definition insert_segment (c : core) (start : Z) : core :=
-  mkcore start
-         (LNewSegment start WFLIP_NOT_INSERTED_YET :: patch_last_wflip (c_rops c) (c_addr c))
-         (dict_set (c_labels c) (wflip_start_label ++ dec (c_segidx c)) (c_addr c))
-         (c_lbladdrs c)
-         (c_segidx c + 1)%N.
+(* insert_segment: a source label spelled like the assembler-internal label is a 'declared twice' error *)
+Definition insert_segment (c : core) (start : Z) : res core :=
+  let wl := wflip_start_label ++ dec (c_segidx c) in
+  if dict_mem (c_labels c) wl then RErr (PreDupLabel wl)
+  else ROk (mkcore start
+                   (LNewSegment start WFLIP_NOT_INSERTED_YET :: patch_last_wflip (c_rops c) (c_addr c))
+                   (dict_set (c_labels c) wl (c_addr c))
+                   (c_lbladdrs c)
+                   (c_segidx c + 1)%N).
 
 Definition labels_env (c : core) : string -> option Z := dict_get (c_labels c).
 
@@ -264,11 +267,12 @@ Definition step_core (pd : pdict) (op : stmt) (c : core) : res core :=
   | SSegment e _ =>
       rbind (of_eval_new (eval_new (subst_of pd) e)) (fun e' =>
       rbind (calc c e' PreSegmentEval) (fun a =>
-      if negb (a mod w =? 0) then RErr PreSegmentUnaligned else ROk (insert_segment c a)))
+      if negb (a mod w =? 0) then RErr PreSegmentUnaligned else insert_segment c a))
   | SReserve e _ =>
       rbind (of_eval_new (eval_new (subst_of pd) e)) (fun e' =>
       rbind (calc c e' PreReserveEval) (fun r =>
-      if negb (r mod w =? 0) then RErr PreReserveUnaligned
+      if r <? 0 then RErr PreReserveNegative
+      else if negb (r mod w =? 0) then RErr PreReserveUnaligned
       else let a := c_addr c + r in ROk (push_op (set_addr c a) (LReserveBits a))))
   | SMacroCall _ _ _ | SRepCall _ _ _ _ _ => ROk c
   end.
@@ -498,7 +502,7 @@ Definition err_tag (e : merr) : N :=
   | PreUnknownMacro _ => 1 | PreDepth => 2 | PreDupLabel _ => 3 | PreRepTimes => 4 | PrePadEval => 5
   | PrePadNonPositive => 6 | PrePadUnaligned => 7 | PreSegmentEval => 8 | PreSegmentUnaligned => 9
   | PreReserveEval => 10 | PreReserveUnaligned => 11 | ExprBadLabelSwap => 12 | ExprRepArgs _ => 13
-  | ExprEvalNew _ => 14 | RawPy _ => 15 | KeyErrorMacro => 16 | PrePadTooFar => 17
+  | ExprEvalNew _ => 14 | RawPy _ => 15 | KeyErrorMacro => 16 | PrePadTooFar => 17 | PreReserveNegative => 18
   end%N.
 
 Inductive expected :=
